@@ -85,6 +85,17 @@ PROPS["C18"] = {
     "assumptions": ["only forward clock steps", "a completion exactly on the check-period boundary ends condition checking for that run (counted as truncated)"],
 }
 
+PROPS["C17"] = {
+    "harness": "countersim", "test": "TestC17", "quick_s": 20, "thorough_s": 600, "batch": 200,
+    "rule": "one evaluation = one simulated history on a real RollingCounter or RatioCounter: drawn bucket count 1-20, resolution (1s, 1.5s, 2s, 2.5s, 7s, 1min, 1h, random whole and fractional >= 1s), epoch not aligned to the resolution, "
+            "3-120 operations (Inc/IncA/IncB, Count/Ratio/Clone reads, Reset, clock steps from sub-resolution to 50 windows); oracle = reference list with the two window sums; non-trivial = at least one read with a non-empty reference window; "
+            "distinct = hash of the read results",
+    "technique": "deterministic simulation restricted to its clock dimension: seeded increment/read histories over a simulated clock against a reference event list (window-sum bounds); no schedule or fault dimension exists for this property",
+    "level_text": "seeded search over histories, bucket counts, resolutions and clock steps of the real counters; sampled, not exhaustive",
+    "level_note": "trusted: frozen clock as only time source, rapid; boundaries are lenient (lower bound over increments strictly younger than (N-1)r, upper bound over increments not older than N*r)",
+    "assumptions": ["only forward clock steps", "non-negative increments"],
+}
+
 PENDING = "check not built yet in this session (planned, see DESIGN.md section 4); not claimed until its harness exists"
 NOT_APPLICABLE = {pid: PENDING for pid in ["C%02d" % i for i in range(1, 21)]}
 NOT_APPLICABLE["C19"] = ("pure function of one request's RemoteAddr/Host/header to a token: no schedule, clock, fault, I/O or multi-party behaviour for a "
